@@ -37,6 +37,14 @@ def run(chk, repo):
     widths(chk, repo)
     descs(chk, repo)
     closures(chk, repo)
+    # where a terminal's bytes are: the allocation (shared with C18) and
+    # the bit positions of its PDO entries (shared with C17)
+    from . import c18, c17
+    chk.doc("R18.6", "allocation decoded independently (shared with C18)")
+    c18.allocation_semantic(chk, repo)
+    chk.doc("R17.4", "PDO entries and their bit positions (shared with "
+                     "C17)")
+    c17.pdos(chk, repo)
 
 
 def start(chk, repo):
@@ -48,6 +56,16 @@ def start(chk, repo):
     chk.ob("R19.1", pv.qualname + "._start", "position = pdo_assign"
            "[terminal][sync manager] + position", ok, st,
            "the allocation of the device's sync group")
+    stores = [x for x in walk_no_nested(st) if isinstance(
+        x, ast.Attribute) and isinstance(x.ctx, (ast.Store, ast.Del))
+        and isinstance(x.value, ast.Name) and x.value.id == "self"]
+    chk.ob("R19.1", pv.qualname + "._start", "the position is looked up in "
+           "the device's sync group on every call", not stores,
+           stores[0] if stores else st,
+           f"`self.{stores[0].attr}` is written: a position remembered in "
+           f"the variable outlives the allocation it came from - the same "
+           f"device in a new or re-allocated sync group is addressed at the "
+           f"old offset" if stores else "no state is kept in the PacketVar")
     for meth in ("get", "set"):
         f = pv.methods[meth]
         ok = bool(find("start = self._start(device)", f, mode="stmt"))
